@@ -176,6 +176,16 @@ def run(ctx: Ctx, rep: Report) -> None:
         bad = [o for o in outs if o.kind != "raise" or not any(t.id in rel for t in o.trail)]
         return (bool(outs) and not bad), (f"{bad[0]}" if bad else ""), outs
 
+    # callbacks (error_received for a synchronous OS error, datagram_received) can run from inside sendto(): the
+    # transport must already be stored so that whoever completes the future can release it
+    if cm is not None:
+        ccfg = ctx.cfg(cm)
+        store_nodes = [cfg_node_of(ccfg, n) for n in own_nodes(cm.node) if isinstance(n, ast.Assign) and any(isinstance(t, ast.Attribute) and t.attr == tr_attr for t in n.targets)]
+        store_nodes = [n for n in store_nodes if n is not None]
+        send_nodes = [cfg_node_of(ccfg, n) for n in own_nodes(cm.node) if isinstance(n, ast.Call) and isinstance(n.func, ast.Attribute) and n.func.attr in ("sendto", "send", "write")]
+        send_nodes = [n for n in send_nodes if n is not None]
+        ok = bool(store_nodes) and bool(send_nodes) and ccfg.must_pass(ccfg.entry, send_nodes, store_nodes)
+        rep.check(ok, "C13-R1", cm.site(), "connection_made stores the transport before it sends the datagram (an OS error reported from inside sendto() must find the transport to release)", key=f"{cm.key}|transport-stored-late")
     have_result = False
     for meth, call, kind in sites:
         site = meth.site(call)
